@@ -91,14 +91,17 @@ func c19Oracle(src string) string {
 		if e >= len(src) {
 			return desc + ": ends beyond the last byte"
 		}
-		toks = append(toks, posTok{t, s, e})
-		if t.Type == token.ILLEGAL {
-			break
+		if t.Type == token.ILLEGAL && len(toks) > 0 && toks[len(toks)-1].tok.Type == token.ILLEGAL && toks[len(toks)-1].start == s {
+			break // the lexer stays on the illegal character: nothing more to read
 		}
+		toks = append(toks, posTok{t, s, e})
+		// a lexer that steps over the illegal character and goes on is held to the same
+		// rules for what follows (the tokens still tile the source)
 	}
 	if len(toks) == 0 || (toks[len(toks)-1].tok.Type != token.EOF && toks[len(toks)-1].tok.Type != token.ILLEGAL) {
 		return "lexer did not reach EOF or ILLEGAL"
 	}
+	sawIllegal := false
 	prevEnd := -1
 	prevText := true // mode before the token: text mode at start
 	for i, pt := range toks {
@@ -108,6 +111,12 @@ func c19Oracle(src string) string {
 			return desc + ": overlaps or precedes the previous token"
 		}
 		gap := src[prevEnd+1 : pt.start]
+		if sawIllegal && i > 0 && toks[i-1].tok.Type == token.ILLEGAL && !gapOK(gap) {
+			return fmt.Sprintf("%s: the lexer went on after the illegal token but the bytes %q between them belong to no token", desc, gap)
+		}
+		if t.Type == token.ILLEGAL {
+			sawIllegal = true
+		}
 		if !gapOK(gap) {
 			return fmt.Sprintf("%s: gap before it holds %q (only whitespace inside code or comments may be skipped)", desc, gap)
 		}
